@@ -37,6 +37,7 @@ type Fault struct {
 	Nth  int    `json:"nth,omitempty"` // 0 = first occurrence
 	When string `json:"when"`          // before, after
 	Kind string `json:"kind"`          // error, cancel
+	Ref  string `json:"ref,omitempty"` // for Resolve faults: the reference string (Node is ignored)
 }
 
 // Recorder collects events and drives latency and faults.
@@ -65,6 +66,10 @@ type Recorder struct {
 func NewRecorder(faults []Fault, keyOf func(int) string, latSeed int) *Recorder {
 	r := &Recorder{counts: map[string]int{}, Faults: faults, Fired: make([]bool, len(faults)), LatSeed: latSeed}
 	for _, f := range faults {
+		if f.Ref != "" {
+			r.fKeys = append(r.fKeys, f.Ref)
+			continue
+		}
 		r.fKeys = append(r.fKeys, keyOf(f.Node))
 	}
 	return r
@@ -203,6 +208,12 @@ func (w *ro) Fetch(ctx context.Context, target ocispec.Descriptor) (io.ReadClose
 	w.r.gauge(w.side, +1)
 	w.r.event(w.side, "Fetch", k, "begin", false)
 	rc, err := w.s.Fetch(ctx, target)
+	if err == nil {
+		if ferr := w.r.Point(ctx, w.side, "Fetch", k, "after"); ferr != nil {
+			rc.Close()
+			err = ferr
+		}
+	}
 	if err != nil {
 		w.r.gauge(w.side, -1)
 		w.r.event(w.side, "Fetch", k, "end", true)
@@ -239,6 +250,9 @@ func (w *ro) Exists(ctx context.Context, target ocispec.Descriptor) (bool, error
 		return false, err
 	}
 	ok, err := w.s.Exists(ctx, target)
+	if err == nil {
+		err = w.r.Point(ctx, w.side, "Exists", k, "after")
+	}
 	w.r.event(w.side, "Exists", k, "end", err != nil)
 	return ok, err
 }
@@ -285,6 +299,9 @@ func (w *tagres) Resolve(ctx context.Context, ref string) (ocispec.Descriptor, e
 		return ocispec.Descriptor{}, err
 	}
 	d, err := w.t.Resolve(ctx, ref)
+	if err == nil {
+		err = w.r.Point(ctx, w.side, "Resolve", ref, "after")
+	}
 	w.r.event(w.side, "Resolve", ref, "end", err != nil)
 	return d, err
 }
@@ -319,6 +336,9 @@ func (w *preds) Predecessors(ctx context.Context, node ocispec.Descriptor) ([]oc
 		return nil, err
 	}
 	out, err := w.p.Predecessors(ctx, node)
+	if err == nil {
+		err = w.r.Point(ctx, w.side, "Predecessors", k, "after")
+	}
 	w.r.event(w.side, "Predecessors", k, "end", err != nil)
 	return out, err
 }
@@ -351,6 +371,9 @@ func (w *roResolver) Resolve(ctx context.Context, ref string) (ocispec.Descripto
 		return ocispec.Descriptor{}, err
 	}
 	d, err := w.t.Resolve(ctx, ref)
+	if err == nil {
+		err = w.r.Point(ctx, w.side, "Resolve", ref, "after")
+	}
 	w.r.event(w.side, "Resolve", ref, "end", err != nil)
 	return d, err
 }
